@@ -1,7 +1,10 @@
 --------------------------- MODULE DevFilterTrace ---------------------------
 (* C10 - table validation.  Every item is one configuration run at one level on the real
-   objects:  [cfg, lvl, rows], a row = what was put in (src, dst, shape, dir) and what the
-   real code did (delivered, newdevs, refused, written, cansend, wanted).
+   objects:  [cfg, conns, lvl, rows], a row = what was put in (src, dst, shape, dir) and what the
+   real code did (delivered, newdevs, refused, written, cansend, wanted).  conns = what happened
+   to the protocol object's connection between the one cfg.act describes and these rows ("lost",
+   and the act of every later connection_made; <<>> = nothing): the clauses are evaluated under
+   the configuration in force then, DevFilter!InForce (J24).
    TLC evaluates the clauses of DESIGN.md App. A / C10 with the operators of DevFilter:
      a  block-listed src/dst: never delivered, gives rise to no device          (rx)
      b  ... a command to/from it is refused before it reaches the radio          (tx)
@@ -14,10 +17,10 @@ EXTENDS DevFilter, Integers, Sequences, Json, IOUtils
 CONSTANT Mode
 Traces == JsonDeserialize(IOEnv.TRACE_FILE)
 
-VARIABLES tid, l, fail
-vars == <<tid, l, fail>>
+VARIABLES tid, l, fail, cs      \* cs: the code model's filter state after the item's history (drift mode)
+vars == <<tid, l, fail, cs>>
 
-RowOf(t, e) == [cfg |-> t.cfg, src |-> e.src, dst |-> e.dst, shape |-> e.shape, dir |-> e.dir]
+RowOf(t, e) == [cfg |-> InForce(t.cfg, t.conns), src |-> e.src, dst |-> e.dst, shape |-> e.shape, dir |-> e.dir]
 
 WellFormed(t, e) == /\ e.src \in Roles /\ e.dst \in Roles /\ e.shape \in Shapes /\ e.dir \in Dirs
                     /\ Expressible(e.src, e.dst, e.shape)
@@ -60,7 +63,8 @@ ClauseOf(t, e) ==
          ELSE IF e.cansend /\ ~e.written THEN "d:tx_refused" ELSE ""
 
 DriftOf(t, e) ==
-  LET r == RowOf(t, e) w == CodeWanted(r) IN
+  \* the code model in the state its life-cycle actions leave it in after the history (cs = CodeAfter(t.cfg, t.conns))
+  LET r == RowOf(t, e) w == CodeWantedIn(cs, r) IN
   IF ~WellFormed(t, e) THEN "harness:row"
   ELSE IF e.wanted # -1 /\ (e.wanted = 1) # w THEN "drift:is_wanted_addrs"
   ELSE IF e.dir = "rx" /\ DeliveryObservable(t) /\ e.delivered # w THEN "drift:delivered"
@@ -69,11 +73,14 @@ DriftOf(t, e) ==
 
 Judge(t, e) == IF Mode = "drift" THEN DriftOf(t, e) ELSE ClauseOf(t, e)
 
-Init == tid \in 1..Len(Traces) /\ l = 1 /\ fail = <<>>
+Init == /\ tid \in 1..Len(Traces) /\ l = 1
+        /\ fail = IF LegalHist(Traces[tid].conns) THEN <<>> ELSE <<1, "harness:conns">>
+        /\ cs = IF LegalHist(Traces[tid].conns) THEN CodeAfter(Traces[tid].cfg, Traces[tid].conns)
+                ELSE CodeState(Traces[tid].cfg)
 Step == /\ l <= Len(Traces[tid].rows)
         /\ LET c == Judge(Traces[tid], Traces[tid].rows[l]) IN
              fail' = IF fail = <<>> /\ c # "" THEN <<l, c>> ELSE fail
-        /\ l' = l + 1 /\ UNCHANGED tid
+        /\ l' = l + 1 /\ UNCHANGED <<tid, cs>>
 Spec == Init /\ [][Step]_vars
 Verdict == (l > Len(Traces[tid].rows)) => PrintT(<<"VERDICT", tid, fail>>)
 =============================================================================
